@@ -8,7 +8,7 @@ SUITE_NAMES = ["client-traces"]
 ASSUMPTIONS = ["PARTIAL w.r.t. the runtime: the theorems are about an LTS at the granularity of externally observable events; real scheduling is represented by traces of real runs (virtual-time asyncio loop, fake transport) that the LTS must accept event by event; OS scheduling, real sockets/serial ports, wall-clock time and blocking inside a task step are outside the model",
                "asyncio primitives (StreamReader, Lock, Queue, Task) and tenacity's retry loop are the real objects in the validated runs and parameters of the model"]
 TRUSTED_EXTRA = ["C13: Model/Client.lean (+Reader.lean) hand models tied by trace validation over systematically enumerated session scripts (fault kind x injection step x client kind x callback behaviour)"]
-N_QUICK, N_THOROUGH = 2000, 16000
+N_QUICK, N_THOROUGH = 3200, 16000
 
 
 def problem_relevant(p):
